@@ -100,13 +100,14 @@ class ELFFile:
             try:
                 self._f.seek(self._e_phoff + self._e_phentsize * index)
                 data = self._read(self._p_fmt)
-            except (struct.error, OverflowError):
+            except (struct.error, OverflowError, OSError, ValueError):
+                # An offset the platform cannot seek to is like one past the end.
                 continue
             if data[self._p_idx[0]] != 3:  # Not PT_INTERP.
                 continue
             try:
                 self._f.seek(data[self._p_idx[1]])
                 return os.fsdecode(self._f.read(data[self._p_idx[2]])).strip("\0")
-            except OverflowError as e:
+            except (OverflowError, OSError, ValueError, MemoryError) as e:
                 raise ELFInvalid("unable to read the interpreter path") from e
         return None
